@@ -414,7 +414,7 @@ def enclosing_func_of(f):
 
 
 MANIFEST = {
-    "text": "Decides language inclusion writer ⊆ reader for every in-band record the dependency collection relies on (marker comment, placeholders with root attributes, nested-component placeholder): the writer language is derived from the source by abstract string evaluation (alphabets and lengths of class hash, render id, input hashes), the reader language from the regex parse tree as a DFA; plus must-pass-through of the two consuming substitutions, provenance of class hashes and dedupe-guard idioms. Holds for every class name / id / hash the writer can produce, which tests cannot enumerate. Also: the marker is emitted for every rendered instance, per-kind gating of default-location insertion, the dynamic component forwards the dependency mode, the middleware gate is not narrower than documented, emit/cache use the same predicate, and the library's own cache backend is configured with keys and values Django actually uses. Round 4: per-mode placeholder replacements, cache-key fields unchanged, every selected base contributes (shared with C08/C19/C16). Round 5: seen-set keys are one field, own class hash, give-up conditions (shared with C08-S12). Round 6: the end-tag scanner matches every valid </head> / </body> (shared with C08-S8).",
+    "text": "Decides language inclusion writer ⊆ reader for every in-band record the dependency collection relies on (marker comment, placeholders with root attributes, nested-component placeholder): the writer language is derived from the source by abstract string evaluation (alphabets and lengths of class hash, render id, input hashes), the reader language from the regex parse tree as a DFA; plus must-pass-through of the two consuming substitutions, provenance of class hashes and dedupe-guard idioms. Holds for every class name / id / hash the writer can produce, which tests cannot enumerate. Also: the marker is emitted for every rendered instance, per-kind gating of default-location insertion, the dynamic component forwards the dependency mode, the middleware gate is not narrower than documented, emit/cache use the same predicate, and the library's own cache backend is configured with keys and values Django actually uses. Round 4: per-mode placeholder replacements, cache-key fields unchanged, every selected base contributes (shared with C08/C19/C16). Round 5: seen-set keys are one field, own class hash, give-up conditions (shared with C08-S12). Round 6: the end-tag scanner matches every valid </head> / </body> (shared with C08-S8). Round 7: safe slot content is not escaped again (shared with C13-S2); the Media collector has no shortcut deciding from `class Media` declarations.",
     "note": "Trusted: the external HTML step serialises added attributes as ` name=\"\"` in list order; hexdigest is lower-case hex; nanoid draws from its alphabet. Attribute sequences are unrolled to 2 enclosing components. Not decided: ordering by first appearance, Media content, fragment JSON content.",
     "technique": "abstract string evaluation (alphabet/length domain) + regex-to-DFA language inclusion; dominator-based must-pass-through",
 }
